@@ -1,6 +1,7 @@
 import WzVerif.Driver.Proto
 import WzVerif.Model.Chunked
 import WzVerif.Model.DevServer
+import WzVerif.Model.DevServerRun
 import WzVerif.Driver.PyPrelude
 namespace Wz.Driver.C19
 open Wz Wz.Proto Wz.Chunked Wz.DevServer
@@ -34,6 +35,32 @@ def pairList (hs : String) : Option (List (Str × Str)) :=
     | [k, v] => match unhexStr k, unhexStr v with
       | some k, some v => some (k, v)
       | _, _ => none
+    | _ => none
+
+/-- headers inside an event: `k=v&k=v` (hex), `-` = the empty list -/
+def evHeaders (s : String) : Option (List (Str × Str)) :=
+  if s == "-" then some [] else
+  (s.splitOn "&").mapM fun p =>
+    match p.splitOn "=" with
+    | [k, v] => match unhexStr k, unhexStr v with
+      | some k, some v => some (k, v)
+      | _, _ => none
+    | _ => none
+
+/-- events separated by `;`: `S<0|1>:<status hex>:<headers>` start_response (1 = with exc_info),
+`E<data hex>` write / yielded piece -/
+def evList (s : String) : Option (List RunWsgi.Ev) :=
+  if s == "[]" then some [] else
+  (s.splitOn ";").mapM fun t =>
+    match t.toList with
+    | 'E' :: d => (unhex (String.ofList d)).map RunWsgi.Ev.emit
+    | 'S' :: rest =>
+      match (String.ofList rest).splitOn ":" with
+      | [x, st, hs] =>
+        match boolArg x, unhexStr st, evHeaders hs with
+        | some x, some st, some hs => some (RunWsgi.Ev.start st hs x)
+        | _, _, _ => none
+      | _ => none
     | _ => none
 
 def showEnv (env : Env) : String := outList (fun (k, v) => hexStr k ++ ":" ++ hexStr v) env
@@ -95,6 +122,16 @@ def handle : Handler
       let r : Resp := { protocol := proto, status := status, serverHeaders := shs, headers := hs, isHead := isHead }
       some (hex (runWsgi r written yielded))
     | _, _, _, _, _, _, _ => some badArgs
+  | "run.wsgi", [proto, shs, isHead, pre, expectHs, call, callRaises, iter, iterRaises, closable, fcall, fiter] =>
+    match unhexStr proto, pairList shs, boolArg isHead, unhex pre, pairList expectHs, evList call, boolArg callRaises,
+        evList iter, boolArg iterRaises, boolArg closable, evList fcall, evList fiter with
+    | some proto, some shs, some isHead, some pre, some reqHs, some call, some callRaises, some iter, some iterRaises,
+        some closable, some fcall, some fiter =>
+      let o := RunWsgi.runHandler ⟨proto, shs, isHead⟩ pre (RunWsgi.expectsContinue reqHs)
+        { call := call, callRaises := callRaises, iter := iter, iterRaises := iterRaises, closable := closable }
+        { call := fcall, iter := fiter }
+      some (hex o.wire ++ "|" ++ toString o.closeCalls ++ "|" ++ outBool o.failed)
+    | _, _, _, _, _, _, _, _, _, _, _, _ => some badArgs
   | "resp.body", [chunked, pieces] =>
     match boolArg chunked, bytesList pieces with
     | some chunked, some pieces => some (hex (bodyWire chunked pieces))
